@@ -293,7 +293,7 @@ Proof.
         apply interleave_nth; [rewrite HlenE; exact Hbn | exact Hi]. }
   unfold rs_block_ok. rewrite Hblock.
   apply forallb_forall. intros i Hi. rewrite zrange_s_zseq, zseq_In in Hi.
-  rewrite <- HBe, <- Hepb in Hi.
+  rewrite <- Hepb in Hi.
   apply Z.eqb_eq. change iso_field with dm_field.
   replace i with (1 + (i - 1)) by lia. apply Hroots. lia.
 Qed.
